@@ -248,12 +248,39 @@ func ruleMapAssign(c *chk.Ctx) {
 		method := f.Params[2]
 		if isHandlerSig(c, mp.Elem()) {
 			// Map: m[method] with the unmodified parameter
+			// (or its comma-ok form, with nil returned only on the miss edge)
 			okIdx := false
+			allOK := true
+			isLk := func(lk *ssa.Lookup) bool {
+				return lk.Index == ssa.Value(method) && lk.X == ssa.Value(f.Params[0])
+			}
 			for _, r := range ir.Returns(f) {
-				if lk, ok := ir.ReturnResult(r, 0).(*ssa.Lookup); ok && lk.Index == ssa.Value(method) && lk.X == ssa.Value(f.Params[0]) {
+				v := ir.ReturnResult(r, 0)
+				if lk, ok := v.(*ssa.Lookup); ok && !lk.CommaOk && isLk(lk) {
 					okIdx = true
+					continue
+				}
+				if e, ok := v.(*ssa.Extract); ok && e.Index == 0 {
+					if lk, ok := e.Tuple.(*ssa.Lookup); ok && isLk(lk) {
+						okIdx = true
+						continue
+					}
+				}
+				miss := false
+				if ir.IsNilConst(v) {
+					for _, cd := range ir.CondsAt(r.Block()) {
+						if e, ok := cd.V.(*ssa.Extract); ok && e.Index == 1 && !cd.Truth {
+							if lk, ok := e.Tuple.(*ssa.Lookup); ok && isLk(lk) {
+								miss = true
+							}
+						}
+					}
+				}
+				if !miss {
+					allOK = false
 				}
 			}
+			okIdx = okIdx && allOK
 			c.Check(okIdx, "TABLE.lookup", f, "exact-name lookup", f.Pos(), "the map is indexed with the unmodified method name", "Map.Assign does not index the map with the unmodified method name")
 			continue
 		}
@@ -510,7 +537,7 @@ func ruleServerInfo(c *chk.Ctx) {
 		return
 	}
 	okNames := false
-	ir.Calls(si, func(ci ssa.CallInstruction) {
+	c.P.ExtCalls(si, func(ci ssa.CallInstruction) {
 		if ci.Common().IsInvoke() && ci.Common().Method.Name() == "Names" {
 			// on a type assertion of the assigner field
 			okNames = true
